@@ -128,3 +128,19 @@ package generic
 //@   at call handleCallbacks#1 assert #reset-output-and-next-timeout arg1 == (cb.ResetOutput ? "" : old(b)) && arg3 == (cb.NextTimeout != 0 ? cb.NextTimeout : old(t))
 //@   ensures #complete-ends-the-operation-with-the-whole-dialogue result.1 == nil && !recursed ==> result.0 == fb
 //@   ensures #a-failing-callback-ends-the-operation-with-its-error !recursed && result.1 != nil ==> len(result.0) == 0
+
+// the reader goroutine of handleCallbacks: after every successful read all callbacks are scanned in list order over
+// the accumulated output; it reports the FIRST callback whose trigger holds, and goes on reading only while none does
+//@ spec cacheOK(c *Callback) bool := (len(c.containsBytes) == 0 || c.containsBytes == (c.Insensitive ? lower(c.Contains) : c.Contains)) && (len(c.notContainsBytes) == 0 || c.notContainsBytes == (c.Insensitive ? lower(c.NotContains) : c.NotContains))
+//@ spec cbsOK(cs []*Callback) bool := forall k int :: 0 <= k && k < len(cs) ==> cs[k] != nil && cacheOK(cs[k])
+//@ spec firstTrig(cs []*Callback, i int, b []byte) bool := 0 <= i && i < len(cs) && trig(cs[i], b) && (forall j int :: 0 <= j && j < i ==> !trig(cs[j], b))
+//@ chanmode (*Driver).handleCallbacks$1:c count
+//@ func (*Driver).handleCallbacks$1 [C18]
+//@   requires RI(d.Channel.Q) && cbsOK(callbacks) && c != nil && !closed(c) && c != d.Channel.Q.depthChan && c != d.Channel.Errs
+//@   chaninv c v => v != nil && (v.err == nil ==> firstTrig(callbacks, v.i, v.b) && v.callbacks === callbacks)
+//@   modifies d.Channel.Q.queue, d.Channel.Q.depth, chan(d.Channel.Q.depthChan), chan(d.Channel.Errs), chan(c), b, fb, all(Callback.containsBytes), all(Callback.notContainsBytes), rd, alloc()
+//@   loop 1 invariant RI(d.Channel.Q) && cbsOK(callbacks) && chlen(c) == old(chlen(c)) && !closed(c)
+//@   loop 1 continue #the-reader-goes-on-only-while-no-trigger-holds forall k int :: 0 <= k && k < len(callbacks) ==> !trig(callbacks[k], b)
+//@   loop 2 invariant rangeindex < len(callbacks) && RI(d.Channel.Q) && cbsOK(callbacks) && chlen(c) == old(chlen(c)) && !closed(c)
+//@   loop 2 invariant #earlier-callbacks-do-not-trigger forall k int :: 0 <= k && k <= rangeindex ==> !trig(callbacks[k], b)
+//@   ensures #at-most-one-result chlen(c) <= old(chlen(c)) + 1 && closed(c)
